@@ -13,6 +13,9 @@ TEMPLATES = [
     "cat|cat_date", "mr|cat|cat", "cat|mr|mr", "cat|cat|mr", "cat|mr|cat", "cai|mr|cac",
     "cac|mr|cai", "mr|cai|cac", "cat", "mr", "numarr", "cat_date", "text|cat", "cat|binned",
     "cai|cac|mr", "cat|cai|cac", "cat", "mr", "cat_date",
+    # multiple response with derived (server-computed insertion) items: ordinary elements as
+    # far as hiding and pruning go, handled apart by the explicit-order collator
+    "mrd", "cat|mrd", "mrd|cat",
 ]
 FLAGS = [(hr, hc, pr, pc) for hr in (0, 1) for hc in (0, 1) for pr in (0, 1) for pc in (0, 1)]
 RULE = (
@@ -34,7 +37,8 @@ TECHNIQUE = "reference-model runtime monitor (visibility from unweighted respond
 DESIGN_REF = "DESIGN.md 4 C09"
 REQUIRED_REACH = ["visible_rows", "visible_cols", "subtotal_visibility", "shape_and_labels",
                   "collator:SortByValueCollator", "class:sorted_by_value_with_prune",
-                  "strand_visible", "class:pruned_element", "class:pruned_and_smoothed", "class:weighted_only_empty",
+                  "strand_visible", "class:pruned_element", "class:pruned_and_smoothed",
+                  "class:derived_item_removed_under_explicit_order", "class:weighted_only_empty",
                   "class:answered_never_selected", "class:subtotals_pruned",
                   "class:pair=MRxMR", "class:pair=CATxMR", "class:pair=MRxCAT"]
 BATCH = 40
@@ -55,7 +59,13 @@ def make_case(unit):
     N = g.pick([5, 8, 12, 20, 30, 45])
     nparts = len(template.split("|"))
     sizes = [g.r.randint(2, 5) for _ in range(nparts)]
-    facets = cases.random_facets(g, template, N, sizes=sizes, p_zero=0.3)
+    facets = cases.random_facets(g, template.replace("mrd", "mr"), N, sizes=sizes, p_zero=0.3)
+    if "mrd" in template:
+        from .c07 import _derive_items
+
+        for role, v in facets:
+            if role == "mr":
+                _derive_items(g, v)
     for _ in range(2):
         cases.entangle_some(g, facets)
     # MR items answered by everybody but selected by nobody / missing for everybody
@@ -99,7 +109,8 @@ def make_case(unit):
                         if nd == 1 else
                         ["row_percent", "col_percent", "table_percent", "count_weighted",
                          "row_percent_moe", "col_std_err", "z_score"])
-            kinds = ["explicit", "label", "payload_order"] + (
+            kinds = ["explicit", "label", "payload_order"] + (["explicit"] * 4 if "mrd" in
+                                                               template else []) + (
                 ["univariate_measure"] * 3 if nd == 1 else
                 ["opposing_element"] * 3 + (["marginal"] * 2 if key == "rows_dimension" else []))
             order = T.random_order(g, ids, [], oids, [], "rows" if key == "rows_dimension"
@@ -209,6 +220,11 @@ def check_case(case):
                         res.classes.append("weighted_only_empty")
             all_empty[d] = len(empties) == o.n_valid(d)
             vis = set(range(o.n_valid(d))) - hidden - (empties if prune else set())
+            if o.facets[d][0] == "mr" and (tdim.get("order") or {}).get("type") == "explicit":
+                gone = (hidden | (empties if prune else set()))
+                if any(o.facets[d][1].items[e].get("derived") for e in gone
+                       if e < len(o.facets[d][1].items)):
+                    res.classes.append("derived_item_removed_under_explicit_order")
             if prune and empties - hidden:
                 res.classes.append("pruned_element")
                 if tdim.get("smoother"):
